@@ -142,10 +142,14 @@ Qed.
 
 (* ---- runs with a step ---------------------------------------------------------------- *)
 Section Delta.
-Variables (k : ikind) (d : Z).
+Variables (k : ikind) (d x : Z).
+Hypothesis Hx0 : nth_error args 0 = Some (mk k x).
+
+(* the wrapped chain the loop verifies, each step with range_step_fits *)
 Definition chained (s : nat) : Prop :=
   forall j, (j < s)%nat -> exists a, nth_error args j = Some (mk k a) /\
-                            nth_error args (S j) = Some (mk k (wr k (a + d))).
+                            nth_error args (S j) = Some (mk k (wr k (a + d))) /\
+                            range_step_fits (mk k x) (mk k a) (mk k (wr k (a + d))) (mk k d) = Some true.
 
 Lemma run_loop_delta fuel size : forall s s' nc',
   run_loop fuel args size true (mk k d) (Z.of_nat s) (Z.of_nat s) = Some (s', nc') ->
@@ -154,7 +158,7 @@ Lemma run_loop_delta fuel size : forall s s' nc',
 Proof.
   induction fuel as [|fuel IH]; intros s s' nc' Hrun Hs Hch; [discriminate|].
   cbn [run_loop] in Hrun. rewrite skipz_nth, incsize_skipn in Hrun.
-  destruct (Hch (s - 1)%nat ltac:(lia)) as (a0 & _ & Ha). replace (S (s - 1)) with s in Ha by lia.
+  destruct (Hch (s - 1)%nat ltac:(lia)) as (a0 & _ & Ha & _). replace (S (s - 1)) with s in Ha by lia.
   set (a := wr k (a0 + d)) in *.
   rewrite (skipn_hd args s), Ha, add_mk in Hrun.
   destruct (size <=? Z.of_nat s + 1) eqn:Esz.
@@ -168,25 +172,77 @@ Proof.
     + apply Z.eqb_eq in Et. symmetry in Et. destruct (type_mk_inj _ _ _ Hzs Et) as (b & ->).
       rewrite eq_mk in Hrun. destruct (wr k (a + d) =? b) eqn:Eb.
       * apply Z.eqb_eq in Eb. subst b.
-        apply IH in Hrun; [|lia|].
-        -- destruct Hrun as (n & -> & -> & Hn & Hc). exists n. repeat split; try lia. exact Hc.
-        -- intros j Hj. destruct (Nat.eq_dec j s) as [->|Hne].
-           ++ exists a. split; assumption.
-           ++ apply Hch. lia.
+        destruct args as [|h0 t0] eqn:Eargs; [discriminate|]. cbn in Hx0. inversion Hx0; subst h0.
+        rewrite <- Eargs in *.
+        destruct (range_step_fits (mk k x) (mk k a) (mk k (wr k (a + d))) (mk k d)) as [[|]|] eqn:Ef;
+          [| |discriminate].
+        -- apply IH in Hrun; [|lia|].
+           ++ destruct Hrun as (n & -> & -> & Hn & Hc). exists n. repeat split; try lia. exact Hc.
+           ++ intros j Hj. destruct (Nat.eq_dec j s) as [->|Hne].
+              ** exists a. repeat split; assumption.
+              ** apply Hch. lia.
+        -- inversion Hrun; subst. exists (S s). repeat split; try lia. now replace (S s - 1)%nat with s by lia.
       * inversion Hrun; subst. exists (S s). repeat split; try lia. now replace (S s - 1)%nat with s by lia.
     + inversion Hrun; subst. exists (S s). repeat split; try lia. now replace (S s - 1)%nat with s by lia.
 Qed.
 
-(* closed form of a chain that starts at a0 *)
-Lemma chained_closed a0 n :
-  nth_error args 0 = Some (mk k a0) -> inr k a0 -> chained n ->
-  forall j, (j <= n)%nat -> nth_error args j = Some (mk k (wr k (a0 + Z.of_nat j * d))).
+Lemma fits_mk a t :
+  range_step_fits (mk k x) (mk k a) (mk k t) (mk k d) =
+  Some ((cmp3 t a =? cmp3 d 0) && (cmp3 (wr k (t - x)) 0 =? cmp3 d 0)).
+Proof. destruct k; reflexivity. Qed.
+
+Definition Mk' : Z := match k with KH => 2 ^ 64 | _ => 2 ^ 32 end.
+Lemma wr_mod' z : exists q, wr k z = z + q * Mk'.
 Proof.
-  intros H0 Hr Hch j. induction j as [|j IH]; intros Hj.
-  - rewrite H0. f_equal. f_equal. rewrite Z.mul_0_l, Z.add_0_r. symmetry. now apply wr_id.
-  - destruct (Hch j ltac:(lia)) as (a & Ha & Hb). rewrite IH in Ha by lia.
-    assert (a = wr k (a0 + Z.of_nat j * d)) by (apply (mk_inj k); congruence).
-    subst a. rewrite Hb. f_equal. f_equal. rewrite wr_add_l. f_equal. lia.
+  unfold Mk'. destruct k; cbn [wr]; unfold wrap32, wrap64.
+  - exists (- ((z + 2 ^ 31) / 2 ^ 32)). pose proof (Z.div_mod (z + 2 ^ 31) (2 ^ 32) ltac:(lia)). lia.
+  - exists (- ((z + 2 ^ 63) / 2 ^ 64)). pose proof (Z.div_mod (z + 2 ^ 63) (2 ^ 64) ltac:(lia)). lia.
+  - exists (- ((z + 2 ^ 31) / 2 ^ 32)). pose proof (Z.div_mod (z + 2 ^ 31) (2 ^ 32) ltac:(lia)). lia.
+Qed.
+Lemma inr_M z : inr k z <-> - Mk' <= 2 * z < Mk'.
+Proof. unfold Mk'. destruct k; cbn [inr]; split; intros; lia. Qed.
+
+(* a verified step is exact, and the span stays in range *)
+Lemma fits_arith a j :
+  inr k x -> inr k a -> inr k d -> d <> 0 -> a = x + j * d -> 0 <= j ->
+  (cmp3 (wr k (a + d)) a =? cmp3 d 0) && (cmp3 (wr k (wr k (a + d) - x)) 0 =? cmp3 d 0) = true ->
+  wr k (a + d) = a + d /\ inr k ((j + 1) * d).
+Proof.
+  intros Hx Ha Hd Hd0 Ea Hj H. apply andb_true_iff in H as [H1 H2].
+  apply Z.eqb_eq in H1. apply Z.eqb_eq in H2.
+  pose proof (wr_inr k (a + d)) as Hi1. destruct (wr_mod' (a + d)) as [q Hq]. rewrite Hq in *.
+  apply inr_M in Hx. apply inr_M in Ha. apply inr_M in Hd. apply inr_M in Hi1.
+  assert (HM : 0 < Mk') by (unfold Mk'; destruct k; lia).
+  assert (q = 0).
+  { unfold cmp3 in H1. destruct (d =? 0) eqn:E0; [lia|]. destruct (0 <? d) eqn:Ed;
+      destruct (a + d + q * Mk' =? a) eqn:E1; try lia; destruct (a <? a + d + q * Mk') eqn:E2; try lia; nia. }
+  subst q. rewrite Z.mul_0_l, Z.add_0_r in *.
+  split; [reflexivity|].
+  pose proof (wr_inr k (a + d - x)) as Hi2. destruct (wr_mod' (a + d - x)) as [q2 Hq2]. rewrite Hq2 in *.
+  apply inr_M in Hi2. apply inr_M.
+  assert (Es : a + d - x = (j + 1) * d) by lia. rewrite Es in *.
+  assert (q2 = 0).
+  { unfold cmp3 in H2. destruct (d =? 0) eqn:E0; [lia|]. destruct (0 <? d) eqn:Ed;
+      destruct ((j + 1) * d + q2 * Mk' =? 0) eqn:E1; try lia; destruct (0 <? (j + 1) * d + q2 * Mk') eqn:E2; try lia; nia. }
+  subst q2. lia.
+Qed.
+
+(* closed, exact form of a verified chain *)
+Lemma chained_exact n :
+  inr k x -> inr k d -> d <> 0 -> chained n ->
+  forall j, (j <= n)%nat -> nth_error args j = Some (mk k (x + Z.of_nat j * d)) /\
+                           inr k (x + Z.of_nat j * d) /\ inr k (Z.of_nat j * d).
+Proof.
+  intros Hx Hd Hd0 Hch j. induction j as [|j IH]; intros Hj.
+  - rewrite Hx0. replace (x + Z.of_nat 0 * d) with x by lia. split; [reflexivity|]. split; [exact Hx|].
+    destruct k; cbn; lia.
+  - destruct (IH ltac:(lia)) as (Hn & Hr & Hs). destruct (Hch j ltac:(lia)) as (a & Ha & Hb & Hf).
+    rewrite Hn in Ha. assert (a = x + Z.of_nat j * d) by (apply (mk_inj k); congruence). subst a.
+    rewrite fits_mk in Hf. inversion Hf as [Hf'].
+    destruct (fits_arith (x + Z.of_nat j * d) (Z.of_nat j) Hx Hr Hd Hd0 eq_refl ltac:(lia) Hf') as [He Hsp].
+    rewrite He in Hb. replace (x + Z.of_nat (S j) * d) with (x + Z.of_nat j * d + d) by lia.
+    split; [exact Hb|]. split; [rewrite <- He; apply wr_inr|].
+    replace (Z.of_nat (S j) * d) with ((Z.of_nat j + 1) * d) by lia. exact Hsp.
 Qed.
 End Delta.
 
@@ -302,7 +358,9 @@ Theorem range_expand_shape o args size c kk :
   convert_to_range o args size = CYes c kk ->
   exists n, kk = Z.of_nat n /\ (5 <= n <= length args)%nat /\ expand c = Some (firstn n args) /\
     ((exists y, c = [VRep (Z.of_nat n) 0; hd VN args; VSpc y]) /\ firstn n args = repeat (hd VN args) n \/
-     (exists k d x y, c = [VRep (Z.of_nat n) 1; mk k d; mk k x; VSpc y] /\ inr k d /\ hd VN args = mk k x /\ d <> 0)).
+     (exists k d x y, c = [VRep (Z.of_nat n) 1; mk k d; mk k x; VSpc y] /\ inr k d /\ hd VN args = mk k x /\ d <> 0 /\
+        forall j, (j < n)%nat -> nth_error args j = Some (mk k (x + Z.of_nat j * d)) /\
+                                 inr k (x + Z.of_nat j * d) /\ inr k (Z.of_nat j * d))).
 Proof.
   intros Hsc Hin Hex Hlen Hc. unfold convert_to_range in Hc.
   destruct ((size <? 5) || (hd_type args =? 45) || negb (compress o)); [discriminate|].
@@ -355,31 +413,38 @@ Proof.
       [|destruct a1; cbn in Hs1, Ee, Hty; try contradiction; discriminate
        |destruct a1; cbn in Hs1, Ee, Hty; try contradiction; discriminate].
     destruct (sub_kind k x a1 delta Esub Erc) as (y & -> & ->).
-    destruct (run_loop (length args) args size true (mk k (wr k (y - x))) 1 1) as [[skipped nc]|] eqn:Er;
-      [|discriminate].
     assert (Hx : inr k x).
     { apply inrv_mk. eapply Forall_forall; [exact Hin|]. eapply nth_error_In. exact H0. }
     assert (Hy : inr k y).
     { apply inrv_mk. eapply Forall_forall; [exact Hin|]. eapply nth_error_In. exact E1. }
-    destruct (run_loop_delta args Hsc k (wr k (y - x)) (length args) size 1 skipped nc Er ltac:(lia))
+    assert (Hyx : wr k (x + wr k (y - x)) = y)
+      by (rewrite wr_add_r; replace (x + (y - x)) with y by lia; now apply wr_id).
+    destruct (range_step_fits (mk k x) (mk k x) (mk k y) (mk k (wr k (y - x)))) as [[|]|] eqn:Ef0;
+      [| discriminate | discriminate].
+    destruct (run_loop (length args) args size true (mk k (wr k (y - x))) 1 1) as [[skipped nc]|] eqn:Er;
+      [|discriminate].
+    destruct (run_loop_delta args Hsc k (wr k (y - x)) x H0 (length args) size 1 skipped nc Er ltac:(lia))
       as (n & -> & -> & Hn & Hch).
     { intros j Hj. assert (j = 0)%nat by lia. subst j. exists x. split; [assumption|].
-      rewrite E1. f_equal. f_equal. rewrite wr_add_r. replace (x + (y - x)) with y by lia.
-      symmetry. now apply wr_id. }
+      rewrite Hyx. split; [exact E1|exact Ef0]. }
     destruct (Z.of_nat n <? 5) eqn:E5; [discriminate|]. inversion Hc; subst c kk. clear Hc.
-    pose proof (chained_closed args k (wr k (y - x)) x (n - 1) H0 Hx Hch) as Hcl.
+    (* the first two values differ, so the step is not 0 *)
+    assert (Hd0 : wr k (y - x) <> 0).
+    { rewrite Hty in Ee. rewrite Z.eqb_refl, eq_mk in Ee. inversion Ee as [Exy]. apply Z.eqb_neq in Exy.
+      intros Hz. rewrite Hz, Z.add_0_r, (wr_id k x Hx) in Hyx. congruence. }
+    pose proof (chained_exact args k (wr k (y - x)) x H0 (n - 1) Hx (wr_inr k _) Hd0 Hch) as Hcl.
     assert (Hnl : (n <= length args)%nat).
-    { assert (Hsome : nth_error args (n - 1) <> None) by (rewrite Hcl by lia; discriminate).
+    { assert (Hsome : nth_error args (n - 1) <> None)
+        by (rewrite (proj1 (Hcl (n - 1)%nat ltac:(lia))); discriminate).
       apply nth_error_Some in Hsome. lia. }
     exists n. split; [reflexivity|]. split; [lia|].
     rewrite Ea. change (Z.to_nat 1) with 1%nat. cbn [firstn app]. rewrite <- Ea.
     rewrite expand_delta by lia. rewrite Nat2Z.id.
-    split; [f_equal; symmetry; apply firstn_map_seq; intros j Hj; apply Hcl; lia|].
+    split.
+    { f_equal. symmetry. apply firstn_map_seq. intros j Hj.
+      destruct (Hcl j ltac:(lia)) as (Hnj & Hrj & _). rewrite Hnj. f_equal. f_equal. symmetry. now apply wr_id. }
     right. eexists _, _, _, _. split; [reflexivity|]. split; [apply wr_inr|]. split; [now rewrite Ea|].
-    (* the first two values differ, so the step is not 0 *)
-    rewrite Hty in Ee. rewrite Z.eqb_refl, eq_mk in Ee. inversion Ee as [Exy]. apply Z.eqb_neq in Exy.
-    intros Hz. assert (Hyx : wr k (x + wr k (y - x)) = y) by (rewrite wr_add_r; replace (x + (y - x)) with y by lia; now apply wr_id).
-    rewrite Hz, Z.add_0_r, (wr_id k x Hx) in Hyx. congruence.
+    split; [exact Hd0|]. intros j Hj. apply Hcl. lia.
 Qed.
 
 Theorem range_expand o args size c kk :
